@@ -46,3 +46,50 @@ if [ ! -f tlsclienc.cert.pem ]; then
   rm -f t.csr t.ext
   openssl verify -CAfile rsaCA.cert.pem tlsclienc.cert.pem
 fi
+# wave 5: (a) self-issued look-alikes of root caA: same subject DN and the same subjectKeyIdentifier, own keys
+#         (b) an X.509 v1 end-entity certificate issued by caA / rsaCA, and leaves "issued" by that end entity
+if [ ! -f lookA-sign.cert.pem ]; then
+  SKID=$(openssl x509 -in caA.cert.pem -noout -ext subjectKeyIdentifier | tail -1 | tr -d ' :')
+  SUBJ="/C=CN/O=verifsim/CN=verifsim SM2 root A"
+  lk() { # name ku eku san
+    openssl genpkey -algorithm SM2 -out "$1.key.pem" 2>/dev/null
+    { echo "[req]"; echo "distinguished_name=dn"; echo "x509_extensions=v3"; echo "[dn]"; echo "[v3]"; echo "basicConstraints=critical,CA:FALSE"; echo "keyUsage=critical,$2"; echo "extendedKeyUsage=$3"; echo "subjectKeyIdentifier=$SKID"; [ -z "$4" ] || echo "subjectAltName=DNS:$4"; } > "$1.cnf"
+    openssl req -config "$1.cnf" -x509 -new -key "$1.key.pem" -subj "$SUBJ" -out "$1.cert.pem" -not_before $VB -not_after $VA -sm3 $D -set_serial $RANDOM$RANDOM
+    rm -f "$1.cnf"
+  }
+  lk lookA-sign digitalSignature serverAuth,clientAuth server.sim
+  lk lookA-enc keyEncipherment,dataEncipherment,keyAgreement serverAuth,clientAuth server.sim
+  lk lookA-cli digitalSignature clientAuth ""
+  for c in lookA-sign lookA-enc lookA-cli; do openssl x509 -in $c.cert.pem -noout -subject -ext subjectKeyIdentifier | tr '\n' ' '; echo; done
+fi
+if [ ! -f v1ee.cert.pem ]; then
+  printf '[req]\ndistinguished_name=dn\n[dn]\n' > min.cnf
+  openssl genpkey -algorithm SM2 -out v1ee.key.pem 2>/dev/null
+  openssl req -new -key v1ee.key.pem -subj "/C=CN/O=verifsim/CN=ordinary user (v1)" -out t.csr -sm3 $D
+  openssl req -config min.cnf -x509 -x509v1 -in t.csr -CA caA.cert.pem -CAkey caA.key.pem -out v1ee.cert.pem -not_before $VB -not_after $VA -sm3 $D $V -set_serial 7771 2>/dev/null
+  openssl x509 -in v1ee.cert.pem -noout -text | grep "Version:"
+  openssl verify $V -CAfile caA.cert.pem v1ee.cert.pem
+  mkv() { # name CN ku eku san : leaf signed by the v1 end entity
+    openssl genpkey -algorithm SM2 -out "$1.key.pem" 2>/dev/null
+    { echo "basicConstraints=critical,CA:FALSE"; echo "keyUsage=critical,$3"; echo "extendedKeyUsage=$4"; echo "subjectKeyIdentifier=hash"; [ -z "$5" ] || echo "subjectAltName=DNS:$5"; } > "$1.ext"
+    openssl req -new -key "$1.key.pem" -subj "/C=CN/O=verifsim/CN=$2" -out "$1.csr" -sm3 $D
+    openssl x509 -req $V -in "$1.csr" -CA v1ee.cert.pem -CAkey v1ee.key.pem -out "$1.cert.pem" -extfile "$1.ext" -not_before $VB -not_after $VA -sm3 $D -set_serial $RANDOM$RANDOM 2>/dev/null
+    rm -f "$1.csr" "$1.ext"
+  }
+  mkv forged-cli "admin" digitalSignature clientAuth ""
+  mkv forged-sign "server.sim sign" digitalSignature serverAuth,clientAuth server.sim
+  mkv forged-enc  "server.sim enc"  keyEncipherment,dataEncipherment,keyAgreement serverAuth,clientAuth server.sim
+  # RSA flavour under the RSA root (TLS path: the client does use the intermediates a server sends)
+  openssl genpkey -algorithm RSA -pkeyopt rsa_keygen_bits:2048 -out v1eersa.key.pem 2>/dev/null
+  openssl req -new -key v1eersa.key.pem -subj "/C=CN/O=verifsim/CN=ordinary rsa user (v1)" -out t.csr -sha256
+  openssl req -config min.cnf -x509 -x509v1 -in t.csr -CA rsaCA.cert.pem -CAkey rsaCA.key.pem -out v1eersa.cert.pem -not_before $VB -not_after $VA -sha256 -set_serial 7772 2>/dev/null
+  openssl x509 -in v1eersa.cert.pem -noout -text | grep "Version:"
+  for n in forgedrsa-srv forgedrsa-cli; do
+    openssl genpkey -algorithm RSA -pkeyopt rsa_keygen_bits:2048 -out $n.key.pem 2>/dev/null
+    if [ $n = forgedrsa-srv ]; then CN="server.sim"; EKU="serverAuth"; SAN="subjectAltName=DNS:server.sim"; else CN="admin"; EKU="clientAuth"; SAN=""; fi
+    { echo "basicConstraints=critical,CA:FALSE"; echo "keyUsage=critical,digitalSignature,keyEncipherment"; echo "extendedKeyUsage=$EKU"; echo "subjectKeyIdentifier=hash"; [ -z "$SAN" ] || echo "$SAN"; } > t.ext
+    openssl req -new -key $n.key.pem -subj "/C=CN/O=verifsim/CN=$CN" -out t.csr -sha256
+    openssl x509 -req -in t.csr -CA v1eersa.cert.pem -CAkey v1eersa.key.pem -out $n.cert.pem -extfile t.ext -not_before $VB -not_after $VA -sha256 -set_serial $RANDOM$RANDOM 2>/dev/null
+  done
+  rm -f t.csr t.ext min.cnf
+fi
